@@ -377,6 +377,45 @@ local function conest(n) if n <= 0 then return 0 end local co = coroutine.wrap(f
 local function callee4(a, b, c, d) local x1, x2, x3, x4, x5, x6, x7, x8, x9, x10, x11, x12 = 1, 2, 3, 4, 5, 6, 7, 8, 9, 10, 11, 12 return tostring(a) .. tostring(b) .. tostring(c) .. tostring(d) .. (x1 + x12) end
 local function fewargs(n) if n <= 0 then return callee4(1) end local r = fewargs(n - 1) return r end
 local function fewargs2(n) if n <= 0 then return callee4() end local r = fewargs2(n - 1) return r .. "" end
+local function fewargs3(n) if n <= 0 then local ok, r = pcall(callee4, 1) if not ok then error(r, 0) end return r end local r = fewargs3(n - 1) return r end
+local function bigframe(a, b, c) local BIGLOCALS = 0 return tostring(a) .. tostring(b) .. tostring(c) end
+local function fewargs4(n) if n <= 0 then local ok, r = pcall(bigframe, 1, 2) if not ok then error(r, 0) end return r end local r = fewargs4(n - 1) return r end
+local function fewmeta(n) if n <= 0 then local t = setmetatable({}, {__index = function(t, k, extra) local x1, x2, x3, x4, x5, x6, x7, x8 = 1, 2, 3, 4, 5, 6, 7, 8 return tostring(extra) .. x8 end}) return t.zz end local r = fewmeta(n - 1) return r end
+local function counpack(n)
+  local co = coroutine.create(function() return select('#', unpack(mkt(n))) end)
+  local pok, ok, r = pcall(coroutine.resume, co)
+  if not pok then
+    if coroutine.status(co) == "suspended" then error(ok, 0) end -- the resumer itself hit a limit before the coroutine started
+    error("COBROKEN resume raised the coroutine's error instead of returning false: " .. tostring(ok), 0)
+  end
+  local st = coroutine.status(co)
+  if coroutine.running() ~= nil then error("COBROKEN running() is not the main thread after resume returned", 0) end
+  if st ~= "dead" then error("COBROKEN a coroutine that returned or failed is " .. st, 0) end
+  if ok then return r end
+  error(r, 0)
+end
+local function cowunpack(n)
+  local co = coroutine.wrap(function() return select('#', unpack(mkt(n))) end)
+  local ok, r = pcall(co)
+  if coroutine.running() ~= nil then error("COBROKEN running() is not the main thread after the wrapped call returned", 0) end
+  local ok2, r2 = pcall(co)
+  if not ok2 and string.find(tostring(r2), "overflow") then error(r2, 0) end -- the caller itself hit a limit
+  if ok2 or not string.find(tostring(r2), "dead") then error("COBROKEN a finished wrapped coroutine is not dead: " .. tostring(r2), 0) end
+  if ok then return r end
+  error(r, 0)
+end
+local function cobyte(n)
+  local s = string.rep("x", n)
+  local co = coroutine.create(function() return select('#', string.byte(s, 1, -1)) end)
+  local pok, ok, r = pcall(coroutine.resume, co)
+  if not pok then
+    if coroutine.status(co) == "suspended" then error(ok, 0) end -- the resumer itself hit a limit before the coroutine started
+    error("COBROKEN resume raised the coroutine's error instead of returning false: " .. tostring(ok), 0)
+  end
+  if coroutine.running() ~= nil or coroutine.status(co) ~= "dead" then error("COBROKEN after a coroutine ended: status " .. coroutine.status(co), 0) end
+  if ok then return r end
+  error(r, 0)
+end
 local function threegen()
   local C
   local A = coroutine.create(function()
@@ -402,20 +441,48 @@ end
 local function run(id, f, ...)
   mark(id)
   local ok, r = pcall(f, ...)
-  if ok then emit(id, true, r) else emit(id, false, errclass(r)) end
+  if coroutine.running() ~= nil then
+    emit(id, false, errclass("COBROKEN after the demand the main thread is not the running thread"))
+  elseif ok then emit(id, true, r) else emit(id, false, errclass(r)) end
 end
 `
 
 func (e *Engine) demandProgram(t *core.Tape) (string, int) {
 	var sb strings.Builder
-	sb.WriteString(demandPrelude)
+	var bl strings.Builder
+	nbig := []int{20, 60, 100, 140}[t.Choose(4)]
+	for i := 0; i < nbig; i++ {
+		if i > 0 {
+			bl.WriteString(", ")
+		}
+		fmt.Fprintf(&bl, "w%d", i)
+	}
+	sb.WriteString(strings.Replace(demandPrelude, "BIGLOCALS", bl.String(), 1))
 	depths := []int{1, 5, 7, 8, 9, 15, 16, 17, 30, 60, 63, 64, 65, 100, 127, 128, 129, 200, 255, 256, 257, 400}
 	argc := []int{1, 2, 50, 100, 120, 127, 128, 129, 200, 250, 255, 256, 257, 500, 1000, 2000}
 	n := 3 + t.Choose(6)
 	maxArg := 0
 	for i := 0; i < n; i++ {
 		id := fmt.Sprintf("d%d", i)
-		switch t.Choose(16) {
+		switch t.Choose(22) {
+		case 16:
+			fmt.Fprintf(&sb, "run(%q, fewargs3, %d)\n", id, t.Choose(70))
+		case 17:
+			fmt.Fprintf(&sb, "run(%q, fewargs4, %d)\n", id, t.Choose(70))
+		case 18:
+			fmt.Fprintf(&sb, "run(%q, fewmeta, %d)\n", id, t.Choose(70))
+		case 19:
+			a := argc[t.Choose(len(argc))]
+			maxArg = max(maxArg, a)
+			fmt.Fprintf(&sb, "run(%q, counpack, %d)\n", id, a)
+		case 20:
+			a := argc[t.Choose(len(argc))]
+			maxArg = max(maxArg, a)
+			fmt.Fprintf(&sb, "run(%q, cowunpack, %d)\n", id, a)
+		case 21:
+			a := argc[t.Choose(len(argc))]
+			maxArg = max(maxArg, a)
+			fmt.Fprintf(&sb, "run(%q, cobyte, %d)\n", id, a)
 		case 15:
 			a := argc[t.Choose(len(argc))]
 			maxArg = max(maxArg, a)
@@ -517,6 +584,8 @@ func runUnder(proto *lua.FunctionProto, c cfgT, maxSteps int64) *progRun {
 		if s, ok := v.(lua.LString); ok {
 			str := string(s)
 			switch {
+			case strings.Contains(str, "COBROKEN"):
+				L.Push(lua.LString("OTHER." + sanitize(str)))
 			case strings.Contains(str, "XPCAUGHT"):
 				L.Push(lua.LString("LIMITX"))
 			case strings.Contains(str, "overflow"):
